@@ -390,6 +390,103 @@ def slow_pair(res, first, second, ack_delay, reaction="ack"):
         w.dispose()
 
 
+def error_elsewhere(res, order, t_err):
+    """Slow requests of two peers are under way; a transport error for peer A (its port is gone) arrives.  Every request of
+    the other peer still gets its one final response (what becomes of A's own requests is not asked here)."""
+    import errno
+    w = World()
+    try:
+        site = resource.Site()
+        site.add_resource(["slow"], make_resource(lambda: Message(payload=b"slow-ok"), 0.5))
+        srv = w.add_context("srv", *SRV, site=site)
+        w.add_peer(AutoAck("p1", *P1))
+        w.add_peer(AutoAck("p2", *P2))
+        toks = []
+        for i, who in enumerate(order):
+            peer = P1 if who == "A" else P2
+            tok = bytes([0x40 + i])
+            toks.append((who, peer, tok))
+            w.inject(peer, SRV, rc.encode((rc.CON, 1, 0x3500 + i, tok, [(11, b"slow")], b"")))
+        serve(w, t_err)
+        w.loop.advance_to(t_err)
+        srv.receive_error(P1, errno.ECONNREFUSED)
+        serve(w, 4.0)
+        case = {"error_elsewhere": [list(order), t_err]}
+        res.evaluations += 1
+        res.traces += 1
+        got = {}
+        for who, peer, tok in toks:
+            if who == "B":
+                fin = finals(w, peer, tok)
+                got[tok.hex()] = [(rc.code_str(m[1]), m[5]) for m in fin]
+                if len(fin) != 1 or fin[0][1] != 69:
+                    res.violate(Violation("failure-affects-neighbour", "exactly one 2.05 for the other peer's request " + tok.hex(), got[tok.hex()],
+                                          "tokenmanager.py:dispatch_error", case, trace=w.trace[-20:], key="elsewhere"))
+        for msg, e in w.loop_exceptions():
+            res.violate(Violation("loop-exception", "none", core.exc_desc(e) if e else msg, core.site_of(e) if e else "loop", case,
+                                  key=type(e).__name__ if e else msg[:40]))
+        res.states.add(core.digest(("elsewhere", order, t_err, sorted(got.items()))))
+        res.transitions += len(order) + 1
+        res.outcomes.add(core.digest(("elsewhere", sorted(got.items()))))
+        res.signatures.add(core.digest(("elsewhere", order, t_err)))
+    finally:
+        w.dispose()
+
+
+def inherited_handlers(res, history):
+    """Resource classes derived from one another (each level adds methods): whatever was rendered before, a request is answered by
+    the handler its own resource has for the method, and with 4.05 exactly if it has none."""
+    from ..seam2 import SiteWorld
+    from aiocoap import GET, PUT, DELETE, POST
+
+    class Reading(resource.Resource):
+        async def render_get(self, request):
+            return Message(payload=b"get:" + self.tag)
+
+    class ReadWrite(Reading):
+        async def render_put(self, request):
+            return Message(payload=b"put:" + self.tag)
+
+        async def render_delete(self, request):
+            return Message(payload=b"delete:" + self.tag)
+
+    class Posting(resource.Resource):
+        async def render_post(self, request):
+            return Message(payload=b"post:" + self.tag)
+
+    class Everything(ReadWrite, Posting):
+        pass
+    classes = {"base": Reading, "derived": ReadWrite, "other": Posting, "mixed": Everything}
+    has = {"base": {"get"}, "derived": {"get", "put", "delete"}, "other": {"post"}, "mixed": {"get", "put", "delete", "post"}}
+    codes_ = {"get": GET, "put": PUT, "delete": DELETE, "post": POST}
+
+    def factory(sw):
+        site = resource.Site()
+        for name, cls in classes.items():
+            r = cls()
+            r.tag = name.encode()
+            site.add_resource([name], r)
+        return site
+    sw = SiteWorld(factory)
+    try:
+        for step, (name, method) in enumerate(history):
+            r = sw.do(Message(code=codes_[method], uri_path=[name]), 1)
+            want = (default_code(int(codes_[method])), (method + ":" + name).encode()) if method in has[name] else (133, None)
+            got = (int(r.code), bytes(r.payload) if int(r.code) < 128 else None) if hasattr(r, "code") else repr(r)
+            res.evaluations += 1
+            if got != want:
+                res.violate(Violation("handler-outcome-not-reflected", want, got, "resource.py:Resource.render",
+                                      {"inherited_handlers": [list(h) for h in history], "step": step}, key="inherited"))
+                break
+        for msg, e in sw.loop_exceptions():
+            res.violate(Violation("loop-exception", "none", core.exc_desc(e) if e else msg, core.site_of(e) if e else "loop",
+                                  {"inherited_handlers": [list(h) for h in history]}, key="inh-loop"))
+        res.signatures.add(core.digest(("inh", history)))
+        res.outcomes.add(core.digest(("inh", len(history))))
+    finally:
+        sw.dispose()
+
+
 def giveup_then_later(res, n_first, later_slow):
     """The peer never acknowledges the separate responses to n_first slow requests; the server gives up on them (time-out of the
     first one).  A request of the same peer long after that is answered like any other."""
@@ -508,6 +605,19 @@ def job(arg):
         for n_first in (1, 2, 3):
             for later_slow in (True, False):
                 giveup_then_later(res, n_first, later_slow)
+        for n in (2, 3):
+            for order in itertools.product("AB", repeat=n):
+                if "A" in order and "B" in order:
+                    for t_err in (0.05, 0.2):
+                        error_elsewhere(res, order, t_err)
+        steps = [(n, m) for n in ("base", "derived", "other", "mixed") for m in ("get", "put", "delete", "post")]
+        for a in steps:
+            for b in steps:
+                inherited_handlers(res, (a, b))
+        for a in steps[::3]:
+            for b in steps[1::3]:
+                for c in steps[2::2]:
+                    inherited_handlers(res, (a, b, c))
         for first in ("ret-payload", "raise-RuntimeError", "raise-Forbidden-text"):
             for second in ("ret-payload", "raise-RuntimeError", "raise-Forbidden-text"):
                 for ack_delay in (0.0, 0.2, 2.5):
@@ -613,6 +723,12 @@ def replay(case, scenario, seed):
         return [v for v, n in res.violations.values()]
     if "token_reuse" in case:
         token_reuse(res, *case["token_reuse"])
+        return [v for v, n in res.violations.values()]
+    if "error_elsewhere" in case:
+        error_elsewhere(res, tuple(case["error_elsewhere"][0]), case["error_elsewhere"][1])
+        return [v for v, n in res.violations.values()]
+    if "inherited_handlers" in case:
+        inherited_handlers(res, tuple(tuple(h) for h in case["inherited_handlers"]))
         return [v for v, n in res.violations.values()]
     if "isolation" in case:
         o, when, peer, slow = case["isolation"][:4]
